@@ -120,37 +120,42 @@ def check(prop_id, tier, seed):
     ctx = Ctx(prop_id, tier, seed, -1, 1, tmp, known)
     nviol = 0
     try:
-        if hasattr(mod, 'setup'):
+        in_parent = getattr(mod, 'PRE_IN_PARENT', False)
+        if in_parent and hasattr(mod, 'setup'):
             ctx.state = mod.setup(ctx)
-        # (1) pinned reproducers of known findings
-        ctx.replaying_known = True
-        for tag, e in sorted(known.items()):
-            still = False
-            for case in e.get('cases', []):
-                if run_prop(mod, case, ctx) is not None:
-                    still = True
-            if still or not e.get('cases'):
-                print('KNOWN-FINDING: property=%s %s' % (prop_id, e['what']))
-        ctx.replaying_known = False
-        ctx.evaluations = 0; ctx.keys.clear(); ctx.classes.clear()
-        ctx.first_samples = []; ctx.big_samples = []
-        # (2) committed corpus
-        corpus = [] if os.environ.get('VERIF_NO_CORPUS') else \
-            sorted(glob.glob(os.path.join(env.VERIF, 'corpus', prop_id, '*.json')))
-        for p in corpus:
-            with open(p) as f:
-                payload = json.load(f)
-            case = payload['case'] if isinstance(payload, dict) and 'case' in payload else payload
-            ctx._noted = False
-            r = run_prop(mod, case, ctx)
-            ctx.event('corpus_replayed')
-            if r is not None:
-                report_violation(prop_id, case, r['message'], r['detail'], tier, seed,
-                                 'corpus:' + os.path.basename(p))
+        # (1)-(3) pinned reproducers of known findings, committed corpus, pre(): in a child
+        # process, so that a crash of the code under test is a violation, not a dead runner
+        out = os.path.join(tmp, 'phase.json')
+        errp = os.path.join(tmp, 'phase.err')
+        cenv = env.child_env(build.backend(False), extra=getattr(mod, 'WORKER_ENV', None))
+        with open(errp, 'w') as ef, open(errp + '.out', 'w') as of:
+            pc = subprocess.run([env.PY, '-m', 'vlib.phase_child', prop_id, tier, str(seed), out, tmp],
+                                cwd=env.VERIF, env=cenv, stdout=of, stderr=ef)
+        if os.path.exists(out):
+            with open(out) as f:
+                pr = json.load(f)
+            for line in pr['known_lines']:
+                print(line)
+            ctx.merge(pr['ctx'])
+            if pr.get('error'):
+                raise HarnessError('phase child: ' + pr['error'])
+            if pr.get('violation'):
+                v = pr['violation']
+                report_violation(prop_id, v['case'], v['message'], v.get('detail'), tier, seed, v['source'])
                 nviol += 1
-                break
-        # (3) pre phase
-        if nviol == 0 and hasattr(mod, 'pre'):
+        else:
+            with open(errp) as f:
+                errtxt = f.read()[-4000:]
+            jp = os.path.join(tmp, 'journal-phase.json')
+            if os.path.exists(jp) and (pc.returncode < 0 or pc.returncode in (134, 139) or 'AddressSanitizer' in errtxt):
+                with open(jp) as f:
+                    j = json.load(f)
+                report_violation(prop_id, j['case'], 'process died (rc=%s) while executing this case (%s)' % (
+                    pc.returncode, j['source']), {'stderr': errtxt, 'returncode': pc.returncode}, tier, seed, j['source'])
+                nviol += 1
+            else:
+                raise HarnessError('phase child died rc=%s without result\n%s' % (pc.returncode, errtxt))
+        if nviol == 0 and in_parent and hasattr(mod, 'pre'):
             try:
                 mod.pre(ctx)
             except Violation as v:
